@@ -208,3 +208,41 @@ PROPS["C12"] = dict(
     require_counters={"any": {"session_scripts": 1000, "api_calls_compared": 20000}},
     assumptions=["pointers are classified, never compared numerically; callback events are compared as a set per call (the ML pass injects repair symbols in rand() order)"],
 )
+
+
+# ---- reach audit anchors (functions named in each property's `mechanism`; lines of special interest) ----
+_ANCH = {
+ "C01": ["of_rs_decode", "of_rs_2m_decode", "of_linear_binary_code_decode_with_new_symbol", "of_linear_binary_code_finish_decoding_with_ml", "of_linear_binary_code_solve_dense_system"],
+ "C02": ["of_rs_new", "of_rs_2m_build_encoding_matrix", "of_invert_mat", "of_galois_field_2_4_invert_mat", "of_galois_field_2_8_invert_mat", "of_rs_decode_with_new_symbol", "of_rs_2_m_decode_with_new_symbol"],
+ "C03": ["of_linear_binary_code_simplify_linear_system_with_a_symbol", "of_linear_binary_code_create_simplified_linear_system", "of_mod2sparse_copy_filled_matrix", "of_linear_binary_code_col_forward_elimination", "of_linear_binary_code_backward_substitution"],
+ "C04": ["of_linear_binary_code_decode_with_new_symbol"],
+ "C05": ["of_create_pchck_matrix_rfc5170_compliant", "of_rfc5170_rand", "of_rfc5170_srand"],
+ "C06": ["of_rs_encode", "of_rs_2m_encode", "of_ldpc_staircase_build_repair_symbol"],
+ "C07": ["of_rs_finish_decoding", "of_rs_2_m_finish_decoding", "of_decode_with_new_symbol", "of_add_to_symbol", "of_add_from_multiple_symbols", "of_add_to_multiple_symbols", "of_addmul1", "of_galois_field_2_8_addmul1", "of_galois_field_2_4_addmul1_compact"],
+ "C08": ["of_rs_release_codec_instance", "of_rs_2_m_release_codec_instance", "of_ldpc_staircase_release_codec_instance", "of_linear_binary_code_finish_decoding_with_ml"],
+ "C09": ["of_set_fec_parameters", "of_rs_set_fec_parameters", "of_rs_2_m_set_fec_parameters", "of_ldpc_staircase_set_fec_parameters", "of_create_pchck_matrix_rfc5170_compliant", "of_build_repair_symbol", "of_decode_with_new_symbol"],
+ "C10": ["of_rs_finish_decoding", "of_rs_2_m_finish_decoding", "of_linear_binary_code_finish_decoding_with_ml", "of_rs_decode_with_new_symbol"],
+ "C11": ["of_rs_finish_decoding", "of_rs_2_m_finish_decoding", "of_linear_binary_code_decode_with_new_symbol", "of_linear_binary_code_finish_decoding_with_ml"],
+ "C12": ["of_create_pchck_matrix_rfc5170_compliant", "of_rs_init", "of_linear_binary_code_finish_decoding_with_ml"],
+ "C13": ["of_add_to_symbol", "of_add_from_multiple_symbols", "of_add_to_multiple_symbols", "of_addmul1", "of_galois_field_2_8_addmul1", "of_galois_field_2_4_addmul1", "of_galois_field_2_4_addmul1_compact"],
+ "C14": ["of_generate_gf", "of_rs_init_mul_table"],
+ "C15": ["of_ldpc_staircase_get_control_parameter", "of_ldpc_staircase_set_fec_parameters"],
+ "C16": ["of_create_2D_pchk_matrix", "of_fill_2D_pchk_matrix", "of_2d_parity_decode_with_new_symbol", "of_2d_parity_finish_decoding"],
+ "C17": ["of_mod2sparse_insert", "of_mod2sparse_insert_opt", "of_mod2sparse_delete", "of_mod2sparse_clear", "of_mod2sparse_free"],
+ "C18": ["of_mod2dense_get", "of_mod2dense_set", "of_mod2dense_flip", "of_linear_binary_code_col_forward_elimination", "of_linear_binary_code_backward_substitution"],
+ "C19": ["of_rfc5170_rand", "of_rfc5170_srand"],
+ "C20": ["of_compute_blocking_struct", "double_to_closest_int"],
+}
+_LINES = {
+ "C03": [("ml_decoding/of_ml_tool.c", "tmp_buffer = constant_tab[i];", "row swap of the right-hand sides in forward elimination"),
+         ("ml_decoding/of_ml_tool.c", "of_add_from_multiple_symbols(variable_tab[i]", "back substitution adds already solved variables")],
+ "C18": [("ml_decoding/of_ml_tool.c", "tmp_buffer = constant_tab[i];", "row swap of the right-hand sides in forward elimination")],
+ "C04": [("it_decoding/of_it_decoding.c", "of_linear_binary_code_decode_with_new_symbol (ofcb, decoded_symbol_dst, decoded_symbol_esi);", "step 3: re-injection of a rebuilt source symbol"),
+         ("it_decoding/of_it_decoding.c", "of_linear_binary_code_decode_with_new_symbol (ofcb, const_term, decoded_symbol_esi);", "step 3: re-injection of a rebuilt repair symbol")],
+ "C11": [("ml_decoding/of_ml_decoding.c", "void	*app_buf = ofcb->decoded_source_symbol_callback", "callback for a symbol recovered by Gaussian elimination")],
+}
+PROPS["C14"]["reach_shards"] = [0, 1, 2]
+PROPS["C19"]["reach_shards"] = [0, 1, 2, 3]
+for _p in PROPS:
+    PROPS[_p]["anchors"] = _ANCH.get(_p, [])
+    PROPS[_p]["line_anchors"] = _LINES.get(_p, [])
